@@ -667,6 +667,8 @@ class Evaluator:
                         if not self._may_raise_exc(b, ht):
                             continue
                         subs = [n for n in ast.walk(b) if isinstance(n, ast.Subscript) and isinstance(n.ctx, ast.Load) and not isinstance(n.slice, ast.Slice)]
+                        if ht == "KeyError" and not subs and not any(isinstance(n, (ast.Call, ast.Delete)) for n in ast.walk(b)):
+                            continue  # nothing in the statement looks anything up by key (slices and attribute reads do not raise KeyError)
                         if ht == "KeyError" and len(subs) == 1 and not any(isinstance(n, ast.Call) for n in ast.walk(b)):
                             # `try: ... d[k] ... except KeyError` is the membership idiom: same atom as `k in d`
                             kv = self.ev(subs[0].slice, st)
@@ -999,6 +1001,15 @@ class Evaluator:
         r = self.hooks.on_call(c, ftext, args, kwargs, st)
         if r is not NOTHING:
             return r
+        if ftext == "len" and len(args) == 1 and not kwargs and isinstance(args[0], str):
+            return len(args[0])  # length of a known text
+        if isinstance(c.func, ast.Attribute) and not kwargs and c.func.attr in ("lower", "upper", "strip", "lstrip", "rstrip", "startswith", "endswith", "isdigit", "isalpha", "isidentifier") and all(isinstance(a, str) for a in args):
+            recv_ = self.ev(c.func.value, st)
+            if isinstance(recv_, str):
+                try:
+                    return getattr(recv_, c.func.attr)(*args)  # a pure method of a known text
+                except Exception:
+                    pass
         if isinstance(c.func, ast.Attribute) and c.func.attr == "keys" and not args and not kwargs:
             base = self.ev(c.func.value, st)
             if isinstance(base, Sym) and base.tag and base.tag[0] == "dict" and base.tag[1] is not None:
